@@ -55,6 +55,36 @@ pub mod jsonwebtoken {
                 final(self).validate_signature == old(self).validate_signature,
         { unimplemented!() }
     }
+    impl Validation {
+        // deviation surface (truthful, weaker contracts)
+        #[verifier::external_body]
+        pub fn insecure_disable_signature_validation(&mut self)
+            ensures !final(self).validate_signature,
+                final(self).algorithms == old(self).algorithms, final(self).leeway == old(self).leeway,
+                final(self).validate_exp == old(self).validate_exp, final(self).validate_nbf == old(self).validate_nbf,
+                final(self).validate_aud == old(self).validate_aud, final(self).aud == old(self).aud, final(self).required == old(self).required,
+        { unimplemented!() }
+    }
+    impl Default for Validation {
+        #[verifier::external_body]
+        fn default() -> (r: Validation)
+            ensures r.algorithms@ == seq![Algorithm::HS256], r.leeway == 60, r.validate_exp, !r.validate_nbf, r.validate_aud,
+                r.aud is None, r.required@ == set!["exp"@], r.validate_signature
+        { unimplemented!() }
+    }
+    pub mod crypto {
+        use vstd::prelude::*;
+        // crypto::verify checks the MAC/signature only; it does NOT check that the algorithm suits the key family
+        pub uninterp spec fn raw_verify(sig: Seq<char>, msg: Seq<u8>, key: super::DecodingKey, alg: super::Algorithm) -> bool;
+        #[verifier::external_body]
+        pub fn verify(signature: &str, message: &[u8], key: &super::DecodingKey, algorithm: super::Algorithm) -> (r: Result<bool, super::JwtError>)
+            ensures r is Ok ==> r->Ok_0 == raw_verify(signature@, message@, *key, algorithm)
+        { unimplemented!() }
+    }
+    #[verifier::external_body]
+    pub fn dangerous_insecure_decode<T: JwtClaims>(token: &str) -> (r: Result<TokenData<T>, JwtError>)
+        ensures r is Ok ==> r->Ok_0.header == hdr_of(token@) && r->Ok_0.claims.jclaims() == claims_of(token@),
+    { unimplemented!() }
     pub struct TokenData<T> { pub header: Header, pub claims: T }
     impl Header {
         #[verifier::external_body]
